@@ -73,7 +73,7 @@ func (handler *DecryptionKeyShareHandler) ValidateMessage(ctx context.Context, m
 	if len(keyShare.Shares) == 0 {
 		return pubsub.ValidationReject, errors.New("no key shares in message")
 	}
-	if len(keyShare.Shares) > int(handler.config.GetMaxNumKeysPerMessage()) {
+	if uint64(len(keyShare.Shares)) > handler.config.GetMaxNumKeysPerMessage() {
 		return pubsub.ValidationReject, errors.Errorf(
 			"too many key shares in message (%d > %d)",
 			len(keyShare.Shares),
